@@ -1355,3 +1355,95 @@ for _b in ("bignSign", "bignKeypairGen", "bignKeyWrap", "bign96Sign", "bign96Key
         BUILDERS[_b + ":stuck-rng"] = _stuck(_b)
         if _b in HEAVY:
             HEAVY.add(_b + ":stuck-rng")
+
+
+# ---------------------------------------------------------------------------------------------------------------
+# step functions that allocate although the protocol state is the caller's: bakeBSTSStep4 / Step5 and btokBAuthTStep5
+# decrypt the peer's (signature part || certificate) into a blob.  Both parties are driven step by step up to the call.
+
+def _proto_step(proto, step, mode="ok"):
+    name = {"BSTS4": "bakeBSTSStep4", "BSTS5": "bakeBSTSStep5", "BAUTH5": "btokBAuthTStep5"}[proto + step] + \
+           ("" if mode == "ok" else ":" + mode)
+
+    def build(lib, rng, size):
+        from . import c04
+        env = _BAKE_ENV.get(id(lib))
+        if env is None:
+            env = _BAKE_ENV[id(lib)] = c04.Env(lib)
+        c04._TAPES.clear()
+        del c04._CB_ERR[:]
+        l = 128
+        no = l // 4
+        n = rng.getrandbits(16)
+        c = Call(name, getattr(lib, name.split(":")[0]))
+        c.expect_ok = mode == "ok"
+        c.exit_class = {"ok": "ok", "badtag": "bad-peer-tag", "refused": "certificate-refused"}[mode]
+        cur = env.curve(l)
+
+        def must(code, what):
+            if code != 0 or c04._CB_ERR:
+                raise Harness("%s: %s failed (%r, %r)" % (name, what, code, c04._CB_ERR))
+
+        for v in c.v:
+            cfg = c04.base_cfg(proto, l, 1, 1, n, ks=rng.getrandbits(30))
+            P = c04.build(env, cfg)
+            A, B = P["A"], P["B"]
+            cv = c04.CV["reject"] if mode == "refused" else None
+            if proto == "BSTS":
+                sa, sb = lib.alloc(lib.bakeBSTS_keep(l)), lib.alloc(lib.bakeBSTS_keep(l))
+                must(lib.bakeBSTSStart(sa, A.params, A.settings, A.privkey, A.cert), "A.Start")
+                must(lib.bakeBSTSStart(sb, B.params, B.settings, B.privkey, B.cert), "B.Start")
+                m1 = lib.alloc(2 * no)
+                must(lib.bakeBSTSStep2(m1, sb), "B.Step2")
+                n2 = 3 * no + A.cert_len + 8
+                m2 = lib.alloc(n2)
+                must(lib.bakeBSTSStep3(m2, m1, sa), "A.Step3")
+                n3 = no + B.cert_len + 8
+                m3 = lib.alloc(n3)
+                if step == "4":
+                    msg = lib.rd(m2, n2)
+                    if mode == "badtag":
+                        msg = msg[:-1] + bytes([msg[-1] ^ 0x40])
+                    v.args = [m3, lib.mk(msg), n2, cv or B.cv_peer, sb]
+                    v.outs = [(m3, n3)]
+                    v.pub = [lib.rd(m1, 2 * no), msg]
+                    v.needles = [env.keypair(l, "B", cfg["ks"])[0]]
+                else:
+                    must(lib.bakeBSTSStep4(m3, m2, n2, B.cv_peer, sb), "B.Step4")
+                    msg = lib.rd(m3, n3)
+                    if mode == "badtag":
+                        msg = msg[:-1] + bytes([msg[-1] ^ 0x40])
+                    v.args = [lib.mk(msg), n3, cv or A.cv_peer, sa]
+                    v.outs = []
+                    v.pub = [lib.rd(m1, 2 * no), lib.rd(m2, n2), msg]
+                    v.needles = [env.keypair(l, "A", cfg["ks"])[0]]
+            else:       # BAUTH: A = terminal, B = token
+                sa, sb = lib.alloc(lib.btokBAuthT_keep(l)), lib.alloc(lib.btokBAuthCT_keep(l))
+                must(lib.btokBAuthTStart(sa, A.params, A.settings, A.privkey, A.cert), "T.Start")
+                must(lib.btokBAuthCTStart(sb, B.params, B.settings, B.privkey, B.cert), "CT.Start")
+                n1 = 2 * no + no // 2 + 16
+                m1 = lib.alloc(n1)
+                must(lib.btokBAuthCTStep2(m1, B.peer_cert, sb), "CT.Step2")
+                n2 = 8 + 16
+                m2 = lib.alloc(n2)
+                must(lib.btokBAuthTStep3(m2, m1, sa), "T.Step3")
+                n3 = 8 + no + B.cert_len
+                m3 = lib.alloc(n3)
+                must(lib.btokBAuthCTStep4(m3, m2, sb), "CT.Step4")
+                msg = lib.rd(m3, n3)
+                if mode == "badtag":
+                    msg = msg[:-1] + bytes([msg[-1] ^ 0x40])
+                v.args = [lib.mk(msg), n3, cv or A.cv_peer, sa]
+                v.outs = []
+                v.pub = [lib.rd(m1, n1), lib.rd(m2, n2), msg]
+                v.needles = [env.keypair(l, "A", cfg["ks"])[0]]
+        return c
+    return build
+
+
+for _pr, _st in (("BSTS", "4"), ("BSTS", "5"), ("BAUTH", "5")):
+    for _md in ("ok", "badtag", "refused"):
+        _b = _proto_step(_pr, _st, _md)
+        _nm = {"BSTS4": "bakeBSTSStep4", "BSTS5": "bakeBSTSStep5", "BAUTH5": "btokBAuthTStep5"}[_pr + _st] + ("" if _md == "ok" else ":" + _md)
+        BUILDERS[_nm] = _b
+        HEAVY.add(_nm)
